@@ -191,7 +191,7 @@ func (e *Env) ev(x Expr) SV {
 		return e.bin(n)
 	case *EQuant:
 		ne := e.clone()
-		var bs []string
+		var bs, ranges []string
 		for _, v := range n.Vars {
 			ty := e.resolveType(v.Type)
 			nm := "q_" + v.Name
@@ -201,9 +201,24 @@ func (e *Env) ev(x Expr) SV {
 			ne.bound[nm] = true
 			ne.vars[v.Name] = SV{nm, ty}
 			bs = append(bs, "("+nm+" "+e.sort(ty)+")")
+			// typed quantification: integer variables range over their Go type
+			if ty.Go != nil {
+				if b, ok := ty.Go.Underlying().(*types.Basic); ok {
+					if lo, hi, ok := intRange(b); ok && b.Kind() != types.Int && b.Kind() != types.Int64 {
+						ranges = append(ranges, "(<= "+lo+" "+nm+")", "(<= "+nm+" "+hi+")")
+					}
+				}
+			}
 		}
 		ne.hints = nil
 		body := ne.ev(n.Body)
+		if len(ranges) > 0 {
+			if n.Forall {
+				body.T = "(=> (and " + strings.Join(ranges, " ") + ") " + body.T + ")"
+			} else {
+				body.T = "(and " + strings.Join(ranges, " ") + " " + body.T + ")"
+			}
+		}
 		var pats string
 		for _, tr := range n.Trig {
 			var ts []string
